@@ -257,7 +257,10 @@ def build_data(spec):
     ti = spec.get("time_input", "float")
     if spec["data_kind"] == "single":
         return build_rvdata(sv[0], ti, False if spec.get("t_ref_false") else spec.get("t_ref"), spec.get("t_ref_scale", "tcb"))
-    ds = [build_rvdata(s, ti) for s in sv]
+    # members of a multi-survey input may carry reference epochs of their own (the merged data set is referred to its
+    # earliest observation whatever they are)
+    mt = spec.get("member_t_ref") or [None] * len(sv)
+    ds = [build_rvdata(s, ti, mt[k], spec.get("member_t_ref_scale", "tcb")) for k, s in enumerate(sv)]
     if spec["data_kind"] == "dict":
         return {k: d for k, d in zip(spec["keys"], ds)}
     if spec["data_kind"] == "tuple":
